@@ -178,6 +178,10 @@ def main():
                 if want and mid not in want:
                     continue
                 meta = json.load(open(os.path.join(base, mid, "meta.json")))
+                if meta.get("obsolete"):
+                    print("%-44s obsolete: %s" % (mid, meta["obsolete"][:80]))
+                    results.append({"id": mid, "status": "obsolete"})
+                    continue
                 patch = os.path.join(base, mid, "patch.diff")
                 r = sh(["git", "-C", scratch, "apply", patch])
                 if r.returncode:
